@@ -39,7 +39,7 @@ TITLE = "documented block-combinator equivalences"
 LEVEL = "proof"
 DOMAINS = ["Front", "Design"]
 
-CAP = 1500
+CAP = 250
 
 
 # --------------------------------------------------------------------------- generation
@@ -52,20 +52,22 @@ def within(fid, name, d0, d1, l0, l1):
 
 def gen_base(rng):
     """(factors, constraints, design, crossings, cs ids, rcc, mode, alignment)"""
-    nA = rng.choice([2, 2, 3])
-    A = F(0, "A", ["a%d" % i for i in range(nA)], [rng.choice([1, 1, 1, 2]) for _ in range(nA)])
-    nB = rng.choice([2, 2, 3])
-    B = F(1, "B", ["b%d" % i for i in range(nB)], [rng.choice([1, 1, 1, 1, 2]) for _ in range(nB)])
+    # small on purpose: IterateSATGen re-reads its CNF for every solution (~15 ms each), and both sides are exhausted
+    nA = rng.choice([2, 2, 2, 3])
+    wp = rng.choice([0.0, 0.0, 0.25])      # weighted levels in a third of the tuples
+    A = F(0, "A", ["a%d" % i for i in range(nA)], [2 if rng.random() < wp else 1 for _ in range(nA)])
+    nB = 2 if nA == 3 else rng.choice([2, 2, 3])
+    B = F(1, "B", ["b%d" % i for i in range(nB)], [2 if rng.random() < wp / 2 else 1 for _ in range(nB)])
     C = F(2, "C", ["c0", "c1"])
     tA = transition(3, "tA", 0, [l for l, _ in A["levels"]])
     wAB = within(4, "wAB", 0, 1, [l for l, _ in A["levels"]], [l for l, _ in B["levels"]])
     factors = [A, B, C, tA, wAB]
     r = rng.random()
-    if r < 0.45:
+    if r < 0.55:
         design = [0, 1]
-    elif r < 0.6:
+    elif r < 0.62:
         design = [0, 1, 2]
-    elif r < 0.8:
+    elif r < 0.82:
         design = [0, 1, 3]
     else:
         design = [0, 1, 4]
@@ -97,12 +99,12 @@ def gen_base(rng):
         elif kind == "Exclude":
             c.update(level=[fid, lname])
         else:
-            c.update(trials=rng.choice([3, 4, 5, 6, 7]))
+            c.update(trials=rng.choice([3, 4, 5, 6]))
         cons.append(c)
         cs.append(c["id"])
     rcc = rng.random() < 0.8
     mode = rng.choice(["weight", "repeat", "equal", "repeat"])
-    al = rng.choice(["equal preamble", "equal preamble", "parallel start", "post preamble"])
+    al = rng.choice(["equal preamble", "equal preamble", "equal preamble", "parallel start", "post preamble"])
     return {"factors": factors, "constraints": cons, "design": design, "crossings": crossings, "cs": cs, "rcc": rcc,
             "mode": mode, "alignment": al}
 
@@ -131,7 +133,7 @@ def equivalences(base, rng):
     out.append(("multi-merge", prog(base, [multi]), prog(base, leaves + [merge])))
     # the block to repeat / merge alone: a CrossBlock or a MultiCrossBlock with the block-level constraints
     inner, outer = split_cs(base)
-    if len(crs) == 1 and rng.random() < 0.6:
+    if len(crs) == 1 and not base.get("force_multi") and rng.random() < 0.6:
         blk = {"id": 0, "kind": "CrossBlock", "design": d, "crossing": crs[0], "constraints": inner, "rcc": rcc}
     else:
         blk = {"id": 0, "kind": "MultiCrossBlock", "design": d, "crossings": crs, "constraints": inner, "rcc": rcc,
@@ -141,7 +143,7 @@ def equivalences(base, rng):
     base2 = base
     if not any(cons[c]["kind"] == "MinimumTrials" for c in outer2):
         base2 = copy.deepcopy(base)
-        base2["constraints"].append({"id": len(base2["constraints"]), "kind": "MinimumTrials", "trials": rng.choice([3, 4, 5, 6, 7])})
+        base2["constraints"].append({"id": len(base2["constraints"]), "kind": "MinimumTrials", "trials": rng.choice([3, 4, 5])})
         outer2.append(base2["constraints"][-1]["id"])
     out.append(("repeat-merge",
                 prog(base2, [blk, {"id": 1, "kind": "Repeat", "block": 0, "constraints": outer2}]),
@@ -170,6 +172,15 @@ def hand_cases():
     A2 = F(0, "A", ["a0", "a1"], [2, 1])
     out.append(("hand-weights", {"factors": [A2, B], "constraints": [], "design": [0, 1], "crossings": [[0], [1]], "cs": [],
                                  "rcc": True, "mode": "repeat", "alignment": "equal preamble"}))
+    tA = transition(3, "tA", 0, ["a0", "a1"])
+    C = F(2, "C", ["c0", "c1"])
+    # Repeat(block, []) vs block when the block is aligned POST_PREAMBLE and has an uncrossed transition factor
+    out.append(("hand-repeat-nil-post", {"factors": [A, B, C, tA], "constraints": [], "design": [0, 1, 3], "crossings": [[1]], "cs": [],
+                                         "rcc": True, "mode": "repeat", "alignment": "post preamble", "force_multi": True}))
+    # Merge([block]) when the block's weighted factor was desugared and a block constraint names it
+    out.append(("hand-merge-desugared", {"factors": [A2, B], "constraints": [{"id": 0, "kind": "AtMostKInARow", "k": 1, "level": [0, "a0"]}],
+                                         "design": [0, 1], "crossings": [[1]], "cs": [0], "rcc": True, "mode": "repeat",
+                                         "alignment": "equal preamble"}))
     out.append(("hand-repeat-parallel", {"factors": [A, B], "constraints": [], "design": [0, 1], "crossings": [[0], [1]], "cs": [],
                                          "rcc": True, "mode": "repeat", "alignment": "parallel start"}))
     return out
@@ -233,8 +244,12 @@ def nodup(xs):
 def predicted_equal(name, L, R):
     """(applicable, equal, detail): does the C24 theorem for `name` apply to the real argument
     blocks, and are the recorded _create arguments of the two main blocks equal in its sense?"""
-    (lb, lrec, lsteps), (rb, rrec, rsteps) = L, R
+    (lb, lrec, lsteps, _), (rb, rrec, rsteps, _) = L, R
+    if not lsteps or not rsteps:
+        return False, True, "nothing built"
     ls, rs = lsteps[-1], rsteps[-1]
+    if ls["bid"] != L[3] or rs["bid"] != R[3]:
+        return False, True, "an argument block was rejected"
     if ls["recorded"] is None or rs["recorded"] is None:
         return False, True, "no _create call on one side"
     la, ra = args_view(lrec, ls["recorded"]), args_view(rrec, rs["recorded"])
@@ -271,8 +286,18 @@ def predicted_equal(name, L, R):
 
 # --------------------------------------------------------------------------- solution sets
 
+_CACHE = {}
+
+
 def exhaust(program, strategy, cap=CAP, timeout=20):
     """("ok", Counter of name-level keys) | ("capped",) | ("rejected", exc, msg) | ("error", exc, msg)"""
+    key = (strategy, json.dumps(program, sort_keys=True))
+    if key not in _CACHE:
+        _CACHE[key] = _exhaust(program, strategy, cap, timeout)
+    return _CACHE[key]
+
+
+def _exhaust(program, strategy, cap, timeout):
     names = ir.user_factor_names(program)
     if strategy == "IterateSATGen":
         b = ir.build(program)
@@ -306,6 +331,8 @@ def show_key(k):
 def compare(name, lp, rp, strategy="IterateSATGen"):
     """None (equal / not comparable) or (sig, what, detail); second component: status string."""
     l = exhaust(lp, strategy)
+    if l[0] == "capped":
+        return None, "capped"
     r = exhaust(rp, strategy)
     if l[0] == "rejected" and r[0] == "rejected":
         return None, "both-rejected"
@@ -314,7 +341,11 @@ def compare(name, lp, rp, strategy="IterateSATGen"):
         rej = l if l[0] == "rejected" else r
         if other[0] == "error":
             return None, "rejected-vs-error"
-        cause = "alignment" if "alignment" in rej[2] else ("same-name" if "same name" in rej[2] else rej[1])
+        if name in ("repeat-nil", "repeat-merge") and "EQUAL_PREAMBLE not allowed with different preamble sizes" in rej[2]:
+            # documented for Repeat: "all crossings must have the same preamble length due to the use of EQUAL_PREAMBLE"
+            return None, "documented-rejection"
+        cause = ("alignment" if "different alignments" in rej[2] else "same-name" if "same name" in rej[2]
+                 else "desugared-factor" if "wasn't found in the design" in rej[2] else rej[1])
         return (("equiv:%s:%s-rejected:%s" % (name, side, cause),
                  "%s: the %s side is rejected by the constructors (%s: %s) while the other side is accepted%s"
                  % (name, side, rej[1], rej[2][:120], (" and has %d solutions" % sum(other[1].values())) if other[0] == "ok" else ""),
@@ -345,7 +376,7 @@ def compare(name, lp, rp, strategy="IterateSATGen"):
 # --------------------------------------------------------------------------- run / replay
 
 def run(ctx, res):
-    nbase = 45 if ctx.quick else 400
+    nbase = 14 if ctx.quick else 150
     rng = ctx.rng
     bases = hand_cases() + [("gen", gen_base(rng)) for _ in range(nbase)]
     res.rule = ("%d generated (design, crossings, cs, rcc, mode, alignment) tuples over 2-3 simple factors (weights 1-2), a transition "
@@ -360,12 +391,12 @@ def run(ctx, res):
         for name, lp, rp in equivalences(base, rng):
             key = json.dumps([name, lp, rp], sort_keys=True)
             try:
-                L = c16.instrumented_build(lp)
-                R = c16.instrumented_build(rp)
+                L = c16.instrumented_build(lp) + (lp["main"],)
+                R = c16.instrumented_build(rp) + (rp["main"],)
             except Exception as e:  # noqa
                 found.append(("harness", "harness error: %s %s" % (type(e).__name__, str(e)[:200]), {}, lp, rp, False))
                 continue
-            for built, rec, steps in (L, R):
+            for built, rec, steps, _ in (L, R):
                 for st in steps:
                     lines.append("(create %s)" % st["exp"])
                     expect.append((rec, st, built.blocks.get(st["bid"]), lp, rp))
@@ -394,7 +425,7 @@ def run(ctx, res):
             res.count(key, nontrivial=(status == "equal"))
             if v is not None:
                 found.append((v[0], v[1], v[2], lp, rp, True))
-            elif status == "equal" and stats["randomgen-pairs"] < (40 if ctx.quick else 300):
+            elif status == "equal" and stats["randomgen-pairs"] < (12 if ctx.quick else 150):
                 stats["randomgen-pairs"] += 1
                 v2, st2 = compare(name, lp, rp, strategy="RandomGen")
                 stats["RandomGen:" + st2] += 1
